@@ -44,10 +44,57 @@ T = {
  'C19_m2': ('C19', 'c.ctx read before the lock', 'data arriving during OnConnect'),
  'X_F8_reverted': ('C13', 'revert of the repair of F8 (stale server tracking)', 'hang-up handled between onAccept\'s activity check and Store'),
  'X_L1_reverted': ('C08', 'revert of the repair of L1 (stale write signal)', 'write timeout while the poller is between PollRW2R and triggerWrite'),
+ # round 2 (second set of independent sub-agents, after the first strengthening)
+ 'C01_r2m1': ('C01', 'WriteDirect rebases the split point with the read offset instead of the flushed length', 'WriteDirect into a node with flushed and partly read data'),
+ 'C01_r2m2': ('C01', 'Release advances the read cursor up to the malloc tail instead of the flushed boundary', 'Release while a pending Malloc has spilled into a node behind flush'),
+ 'C02_r2m1': ('C02', 'a recycled Slice node keeps its origin pointer', 'node-pool reuse of a former Slice node as an ordinary node, then release'),
+ 'C02_r2m2': ('C02', 'Release retires the Peek cache into caches but keeps pointing at it', 'multi-node Peek, Release, Peek again / second Release'),
+ 'C03_r2m1': ('C03', 'Release resets the whole mode byte of the read node (drops the unmanaged/read-only marks)', 'Release on a buffer whose read node is a WriteBinary / Slice node'),
+ 'C03_r2m2': ('C03', 'WriteBuffer detaches the donor\'s tail only when the donor had readable data', 'Append/WriteBuffer of a donor without readable data but with nodes behind its write node'),
+ 'C04_r2m1': ('C04', 'write interest registered before the direct send is accounted for', 'partial sendmsg, poller write-ready between Control and Skip'),
+ 'C04_r2m2': ('C04', 'an empty read no longer returns the booked input space', 'spurious readiness (EAGAIN / 0 bytes) followed by more data'),
+ 'C05_r2m1': ('C05', 'onHup starts the handler task for unread input and also runs the close callbacks itself', 'peer hang-up with unread input and a request handler'),
+ 'C05_r2m2': ('C05', 'Detach on a connection the poller already marked closed closes the descriptor', 'peer close, then Detach'),
+ 'C06_r2m1': ('C06', 'the more-input re-check is done before the task lock is released', 'data arriving between the re-check and the unlock'),
+ 'C06_r2m2': ('C06', 'the exit double-check uses a stale closedBy', 'hang-up recorded after the loop loaded the closing state, unread input left'),
+ 'C07_r2m1': ('C07', 'the timed wait loop looks at the closing status before the buffer', 'data + hang-up both in before the reader wakes (NOT COUNTED at HEAD, see note)'),
+ 'C07_r2m2': ('C07', 'expired-deadline check runs before the already-buffered fast path', 'read deadline in the past with enough bytes buffered'),
+ 'C08_r2m1': ('C08', 'a rejected Write releases the flushing lock of the flush in progress', 'Write during a blocked Flush, then a third flusher'),
+ 'C08_r2m2': ('C08', 'peer-close path wakes a blocked flusher only after OnDisconnect has returned', 'Flush blocked on a full socket, peer closes, OnDisconnect waits for the writer'),
+ 'C09_r2m1': ('C09', 'OnDisconnect without OnConnect tied to state connected', 'hang-up before onConnect() moved the state (no OnConnect configured)'),
+ 'C09_r2m2': ('C09', 'hang-up path offers unread input to OnRequest without looking at the connect state', 'data + FIN before OnConnect has started'),
+ 'C10_r2m1': ('C10', 'freeable queues the slot before waiting for the token and resetting it', 'slot reuse while the poller still dispatches through it'),
+ 'C10_r2m2': ('C10', 'close callback closes the descriptor before releasing the poller slot', 'descriptor number reused by an accept inside the window'),
+ 'C11_r2m1': ('C11', 'close message compared as a whole: lost when drained together with a Trigger', 'Close and Trigger coalesced in one eventfd read'),
+ 'C11_r2m2': ('C11', 'operator left in the do state on the ERR / empty-error-queue path', 'EPOLLERR with an empty error queue, then close of that connection'),
+ 'C12_r2m1': ('C12', 'a read that times out while the connection is being closed drains an already consumed timer', 'timer tick, then close before the reader re-checks'),
+ 'C12_r2m2': ('C12', 'Flush/Write on a closed connection keeps the flushing key', 'Flush after close, then Close'),
+ 'C13_r2m1': ('C13', 'Shutdown reads the accepts-in-progress counter after its sweep', 'an accept completing (Store, accepting--) between the sweep and the counter load'),
+ 'C13_r2m2': ('C13', 'off-by-one in the accept back-off table after EMFILE', 'more than seven consecutive failed re-accepts'),
+ 'C14_r2m1': ('C14', 'timed-out dial of a multi-address host reports the first address\'s error', 'host name with two addresses: refused, then silently dropping'),
+ 'C14_r2m2': ('C14', 'poller slot leaked when the connect error is only seen in SO_ERROR', 'reset between the write-ready callback and the SO_ERROR read'),
+ 'C15_r2m1': ('C15', 'second listener.Close closes a descriptor number the listener no longer owns', 'Close twice with a descriptor opened in between'),
+ 'C15_r2m2': ('C15', 'poller misses the close message when a Trigger wake-up is pending', 'Close and Trigger coalesced: epoll fd and eventfd never closed'),
+ 'C16_r2m1': ('C16', 'zcReader.fill returns the source\'s error before committing the bytes delivered with it', 'io.Reader returning (n > 0, err)'),
+ 'C16_r2m2': ('C16', 'ioWriter.Write hands p to WriteBinary and so retains the caller\'s buffer', 'Write of more than 4 KiB, caller reuses p'),
+ 'C17_r2m1': ('C17', 'worker releases the run flag only after the exit re-check', 'an Add between the re-check and the flag release (lost trigger)'),
+ 'C17_r2m2': ('C17', 'pending-shard counter given back before the shard\'s getters are run', 'Close between the counter update and deal'),
+ 'C18_r2m1': ('C18', 'round-robin counter restarted after each full round (add + store not atomic)', 'concurrent Picks around the wrap'),
+ 'C18_r2m2': ('C18', 'shrinking the pool closes the wrong pollers', 'SetNumLoops to a smaller number'),
+ 'C19_r2m1': ('C19', 'operator reset before the poller has let go of it', 'Close while the poller is inside do()/done() for that operator'),
+ 'C19_r2m2': ('C19', 'ShardQueue.Add tests the shard for emptiness before taking the shard lock', 'concurrent Add and worker swap'),
+ 'X_L1b_reverted': ('C08', 'revert of the repair of L1b (stale flush signal leaves write interest unregistered)', 'write timeout, stale signal consumed by the next flush'),
+ 'X_F12c_reverted': ('C05', 'revert of the repair of F12c (onHup takes the processing lock twice)', 'handler task exiting between the two lock attempts'),
+ 'X_F17_reverted': ('C13', 'revert of the repair of F17 (accepts in progress not counted by Shutdown)', 'Shutdown between accept(2) and Store'),
+ 'X_F8b_reverted': ('C13', 'revert of the repair of F8b (re-check uses IsActive, not the close-callback flag)', 'close callbacks running between Store and the re-check'),
+ 'X_F18_reverted': ('C13', 'revert of the repair of F18 (closing connections never tracked)', 'hang-up before onAccept, descriptor closed later'),
+ 'X_F19_reverted': ('C07', 'revert of the repair of F19 (EOF although the wanted bytes are buffered)', 'data and hang-up both in before the reader re-checks'),
 }
 NOTES = {
  'C09_m1': 'NOT COUNTED at HEAD: the repair of F6 (re-check after unlock(connecting)) makes this change behaviour-preserving - the demonstration passes with the patch applied and OnDisconnect still runs exactly once before the close callbacks; kept for the record (it was caught by C09 before that repair).',
  'C06_m1': 'same source change as C04_m1',
+ 'C07_r2m1': 'NOT COUNTED at HEAD: this change re-creates, in the timed loop only, the order of checks that the pinned tree had in both loops; the checks built for it found that the pinned tree itself breaks C07 that way (finding F19, repaired by 62c121c). With that repair in place the change is behaviour-preserving (the demonstration passes); X_F19_reverted is the counted form.',
+ 'C02_r2m2': 'caught by the C01 and C03 checks (wrong Peek result, double free); the C02 check sees the same executions but the first rule to fire is C01\'s',
 }
 for sd, (prop, what, needs) in sorted(T.items()):
     d = os.path.join(ROOT, 'seeded', sd)
